@@ -115,20 +115,22 @@ Proof.
   - intros pr gr wrap. destruct wrap; vm_compute; discriminate.
 Qed.
 
-(* \U escapes are accumulated in an int32: values >= 2^31 become negative runes *)
-Example unquote_impl_panics :
+(* what fix unquote-U removed: with \U escapes accumulated in an int32, values
+   >= 2^31 became negative runes *)
+Example unquote_int32_panics :
   (* the string literal with the single escape \UFFFFFFFC *)
-  unquote_impl [34; 92; 85; 70; 70; 70; 70; 70; 70; 70; 67; 34] = Panic.
-Proof. vm_compute. reflexivity. Qed.
-
-Example unquote_impl_truncates :
-  (* abc\UFFFFFFFFdef (quoted) is accepted as abc; the specification layer rejects it *)
-  unquote_impl [34; 97; 98; 99; 92; 85; 70; 70; 70; 70; 70; 70; 70; 70; 100; 101; 102; 34] = Ok [97; 98; 99] /\
-  unquote_spec [34; 97; 98; 99; 92; 85; 70; 70; 70; 70; 70; 70; 70; 70; 100; 101; 102; 34] = Err ESyntax.
+  unquote_int32 [34; 92; 85; 70; 70; 70; 70; 70; 70; 70; 67; 34] = Panic /\
+  unquote_impl [34; 92; 85; 70; 70; 70; 70; 70; 70; 70; 67; 34] = Err ESyntax.
 Proof. split; vm_compute; reflexivity. Qed.
 
-Theorem unquote_no_panic_refuted : exists s, unquote_impl s = Panic.
-Proof. eexists. exact unquote_impl_panics. Qed.
+Example unquote_big_U_rejected :
+  (* abc\UFFFFFFFFdef (quoted) is an invalid escape; the int32 layer accepted it as abc *)
+  unquote_impl [34; 97; 98; 99; 92; 85; 70; 70; 70; 70; 70; 70; 70; 70; 100; 101; 102; 34] = Err ESyntax /\
+  unquote_int32 [34; 97; 98; 99; 92; 85; 70; 70; 70; 70; 70; 70; 70; 70; 100; 101; 102; 34] = Ok [97; 98; 99].
+Proof. split; vm_compute; reflexivity. Qed.
+
+Theorem unquote_int32_no_panic_refuted : exists s, unquote_int32 s = Panic.
+Proof. eexists. exact (proj1 unquote_int32_panics). Qed.
 
 (* ------------------------------------------------------------ non-vacuity ---- *)
 
@@ -161,7 +163,7 @@ Example ex_string_lossy : forall pr gr,
 Proof.
   intros pr gr s. subst s. split; [|split; vm_compute; reflexivity].
   (* pr 0xFFFD is unknown: both spellings (raw U+FFFD or the u-escape) read back the same *)
-  unfold unquote_impl. rewrite (unquote_quote_when true pr gr string_form [97; 255; 98]).
+  unfold unquote_impl. rewrite (unquote_quote_when false pr gr string_form [97; 255; 98]).
   - vm_compute. reflexivity.
   - split; [reflexivity|left; split; reflexivity].
   - repeat constructor.
